@@ -617,8 +617,9 @@ pub fn c14(tier: Tier) -> i32 {
     //      relative paths are relative to the working directory wherever the configuration file is; the
     //      sub-directory holds directories of the same names with other files, so a wrong base shows
     let mut res_cases: Vec<(Option<&str>, Option<&str>, bool, &str)> = Vec::new();
-    for flag in [None, Some("dirA"), Some("./contracts"), Some("contracts"), Some("./dirA")] {
-        for tomlp in [None, Some("dirB"), Some("./contracts"), Some("./dirB")] {
+    // ("nowhere" does not exist and "dirA/InA.sol" is a file: a selected directory that cannot be listed is not replaced by another)
+    for flag in [None, Some("dirA"), Some("./contracts"), Some("contracts"), Some("./dirA"), Some("nowhere"), Some("dirA/InA.sol")] {
+        for tomlp in [None, Some("dirB"), Some("./contracts"), Some("./dirB"), Some("nowhere")] {
             for contracts in [true, false] {
                 for loc in ["cwd", "sub-relative", "sub-absolute"] {
                     if tomlp.is_none() && loc != "cwd" {
@@ -770,6 +771,21 @@ pub fn c14(tier: Tier) -> i32 {
         }
         for pre in [false, true] {
             unk_cases.push((format!("name {:?} valid for another list and listed there, also put into list {} (pre-existing report: {})", misplaced, ["optimizations", "vulnerabilities", "qa"][li], pre), o.clone(), v.clone(), q.clone(), pre));
+        }
+    }
+    // many unknown names at once (an exit status is a byte: a count of 256 or 512 reads as success)
+    for n in [2usize, 255, 256, 257, 512, 768] {
+        for list in 0..3 {
+            let many: Vec<String> = (0..n).map(|k| format!("no_such_pattern_{}", k)).collect();
+            let (mut o, mut v, mut q) = (vec![on[0].clone()], vec![vn[0].clone()], vec![qn[0].clone()]);
+            match list {
+                0 => o.extend(many),
+                1 => v.extend(many),
+                _ => q.extend(many),
+            }
+            for pre in [false, true] {
+                unk_cases.push((format!("{} unknown names in list {} (pre-existing report: {})", n, ["optimizations", "vulnerabilities", "qa"][list], pre), o.clone(), v.clone(), q.clone(), pre));
+            }
         }
     }
     let ures = util::par_map(unk_cases.len(), |i| {
